@@ -71,3 +71,16 @@ std::vector<std::string> write_policy_breaches(const Sandbox& sb, const CmdSpec&
 
 // ---- fsync-before-rename ordering (C06/C07 mechanism) ---------------------
 std::vector<std::string> fsync_order_breaches(const Sandbox& sb, const CmdResult& r);
+
+// ---- buffer ownership / exactly-once monitor over the io.c hand-over trace (C13) ----
+struct OwnershipReport {
+	std::vector<std::string> breaches;
+	std::vector<uint32_t> positions;   // stripes returned by io_read_next, in order
+	unsigned worker_tasks = 0;
+	unsigned io_max = 0;
+	bool threaded = false;
+	bool had_events = false;
+	std::set<uint64_t> ring_states;    // distinct (reader lag vector) hashes
+	unsigned ring_full = 0, main_waited_writer = 0;
+};
+OwnershipReport ownership_monitor(const CmdResult& r);
